@@ -3,7 +3,7 @@ import itertools
 
 import bvsym as sx
 from bvsym import core
-from .common import (FakeSock, KeySource, Obligation, cover, decode_client_frames, new_ws, quiet_logging, server_frame)
+from .common import (FakeSock, KeySource, Obligation, cover, decode_client_frames, new_ws, quiet_logging, ref_encode, server_frame)
 
 PROPERTY = "C07"
 EXPLANATION = ("The ping branch of WebSocket.recv_data_frame and WebSocket.pong -> send -> send_frame executed on frame "
@@ -173,6 +173,54 @@ def g_long(n):
     cover("long")
 
 
+def g_many(npings, where, control_frame=False):
+    """'any number of pings': npings consecutive pings (the first and the last with a symbolic payload byte) before a message or
+    between its two fragments, all consumed inside ONE message-level receive call: one pong per ping, same payloads, same order,
+    then the message is returned"""
+    quiet_logging()
+    Proto, Payload, Closed = _excs()
+    a, b = sx.sym_bytes("a", 1), sx.sym_bytes("b", 1)
+    pings = server_frame(1, 9, a) + server_frame(1, 9, b"") * (npings - 2) + server_frame(1, 9, b)
+    m = sx.sym_bytes("m", 2)
+    if where == "before":
+        stream = pings + server_frame(1, 2, m)
+    else:
+        stream = server_frame(0, 2, m[:1]) + pings + server_frame(1, 0, m[1:])
+    keys = [sx.sym_bytes("k0", 4)] + [bytes(4)] * (npings - 2) + [sx.sym_bytes("k1", 4)]
+    sock = FakeSock([stream, "eof"])
+    ws = new_ws(sock, get_mask_key=KeySource(list(keys)))
+    import sys
+    old_limit = sys.getrecursionlimit()
+    sys.setrecursionlimit(1000)  # the interpreter's default (the engine raises it for its own term handling): stack use must not grow with the number of frames
+    try:
+        if control_frame:
+            got = None
+            for _ in range(npings + 1):
+                op, fr = ws.recv_data_frame(True)
+                if op in (1, 2):
+                    got = (op, fr.data)
+                    break
+        else:
+            got = ws.recv_data()
+    except (sx.Control, sx.ConcreteFailure, sx.ReplayMismatch):
+        raise
+    except BaseException as e:  # RecursionError / MemoryError are not Exceptions' business either: report them
+        if isinstance(e, (KeyboardInterrupt, SystemExit)):
+            raise
+        sys.setrecursionlimit(old_limit)
+        sx.require(False, "receive call over %d consecutive pings raised %s" % (npings, type(e).__name__), where=where)
+        return
+    finally:
+        sys.setrecursionlimit(old_limit)
+    sx.require(got is not None and sx.And(got[0] == 2, got[1] == m), "the message behind / around the pings is delivered intact", n=npings, where=where)
+    exp = ref_encode(1, 10, a, keys[0]) + ref_encode(1, 10, b"", bytes(4)) * (npings - 2) + ref_encode(1, 10, b, keys[-1])
+    wire = sock.wire()
+    sx.require(len(wire) == len(exp), "exactly one pong per ping (%d pings)" % npings, got=len(wire), exp=len(exp), where=where)
+    if len(wire) == len(exp):
+        sx.require(wire == exp, "pongs carry the payloads of the pings, in order", n=npings, where=where)
+    cover("many")
+
+
 def g_threads(kind):
     """the automatic pong stays whole on the wire next to a concurrent sender (C12's interleaving queries, shared)"""
     from .c12 import w_order_mixed, w_order_send
@@ -222,5 +270,10 @@ def obligations(tier):
                    bounds="a sender thread (frame in 2 pieces) against another sender, and against a receiver thread answering a ping; ALL interleavings "
                           "of the extracted lock/write events (C12's queries)", must_cover=["order-send", "order-mixed"], solver_timeout_ms=120000,
                    kernel=["WebSocket.send_frame (send lock)", "recv_data_frame (ping branch)", "WebSocket.pong"]),
+        Obligation("G-many", g_many, [dict(npings=n, where=w, control_frame=cf) for n in ((50, 400, 1200, 3000) if thorough else (50, 1200)) for w in ("before", "inside")
+                                      for cf in (False, True)],
+                   bounds="50 / 1200 (thorough: 400, 3000 as well) consecutive pings before a message or between its two fragments, consumed by one "
+                          "recv_data() call (or reported one by one); first and last ping payload, their mask keys and the message symbolic",
+                   must_cover=["many"], step_budget=400000, kernel=["WebSocket.recv_data_frame (receive loop)", "WebSocket.pong"]),
         Obligation("G-long", g_long, [dict(n=n) for n in (126, 127, 300)], bounds="pings of 126, 127, 300 bytes", must_cover=["long"]),
     ]
